@@ -266,6 +266,26 @@ theorem C12_ecdsa_verify_total (H : Option HashFn) (Q : Alg.Pt Nat) (sig msg : B
   | ok b => exact Or.inl ⟨b, rfl⟩
   | error e => exact Or.inr ⟨e, rfl⟩
 
+/-- key validation of `Verify` (`ECParams.verifyPK`): it answers `true` exactly when the key is a finite point ON THE CURVE and the
+    signature verifies under it — the exported field `A` may hold any pair of coordinates -/
+theorem C12_ecdsa_verifyPK_iff (H : Option HashFn) (Q : Alg.Pt Nat) (sig msg : Bytes) :
+    P.verifyPK sm H Q sig msg = .ok true ↔ Q.isNone = false ∧ P.E.onCurve Q = true ∧ P.verify sm H Q sig msg = .ok true := by
+  unfold ECParams.verifyPK
+  by_cases h1 : Q.isNone = true
+  · simp [h1]
+  · by_cases h2 : P.E.onCurve Q = true
+    · simp [h1, h2]
+    · simp [h1, h2]
+
+/-- an off-curve key is refused whatever the signature and the message are (no arithmetic happens on another curve) -/
+theorem C12_ecdsa_offcurve_key_rejected (H : Option HashFn) (x y : Nat) (sig msg : Bytes) (h : P.E.onCurve (some (x, y)) = false) :
+    P.verifyPK sm H (some (x, y)) sig msg = .error .notOnCurve := by
+  simp [ECParams.verifyPK, h]
+
+/-- the point at infinity is refused as a key -/
+theorem C12_ecdsa_infinity_key_rejected (H : Option HashFn) (sig msg : Bytes) :
+    P.verifyPK sm H none sig msg = .error .pkInfinity := rfl
+
 end ECDSA
 
 section EdDSA
